@@ -88,19 +88,19 @@ func (s *session) timedRequest(r *rig.Rig, c, id, ev string, np int) (hung bool)
 		case "CreateContainer":
 			var rpl *api.CreateContainerResponse
 			rpl, err = r.Ad.CreateContainer(ctx, &api.CreateContainerRequest{Pod: pod, Container: cont})
-			if err == nil {
+			if rpl != nil { // (a result handed back together with an error is recorded as well: there must be none)
 				tags = tagsOfAdjust(rpl.Adjust)
 			}
 		case "UpdateContainer":
 			var rpl *api.UpdateContainerResponse
 			rpl, err = r.Ad.UpdateContainer(ctx, &api.UpdateContainerRequest{Pod: pod, Container: cont, LinuxResources: &api.LinuxResources{}})
-			if err == nil {
+			if rpl != nil {
 				tags = tagsOfUpdates(rpl.Update)
 			}
 		case "StopContainer":
 			var rpl *api.StopContainerResponse
 			rpl, err = r.Ad.StopContainer(ctx, &api.StopContainerRequest{Pod: pod, Container: cont})
-			if err == nil {
+			if rpl != nil {
 				tags = tagsOfUpdates(rpl.Update)
 			}
 		case "UpdatePodSandbox":
@@ -109,6 +109,14 @@ func (s *session) timedRequest(r *rig.Rig, c, id, ev string, np int) (hung bool)
 			err = r.Ad.StartContainer(ctx, &api.StateChangeEvent{Pod: pod, Container: cont})
 		case "RunPodSandbox":
 			err = r.Ad.RunPodSandbox(ctx, &api.StateChangeEvent{Pod: pod})
+		case "RemoveContainer":
+			err = r.Ad.RemoveContainer(ctx, &api.StateChangeEvent{Pod: pod, Container: cont})
+		case "RemovePodSandbox":
+			err = r.Ad.RemovePodSandbox(ctx, &api.StateChangeEvent{Pod: pod})
+		case "StopPodSandbox":
+			err = r.Ad.StopPodSandbox(ctx, &api.StateChangeEvent{Pod: pod})
+		case "PostCreateContainer":
+			err = r.Ad.PostCreateContainer(ctx, &api.StateChangeEvent{Pod: pod, Container: cont})
 		default:
 			err = fmt.Errorf("driver: unsupported request kind %s", ev)
 		}
@@ -295,6 +303,11 @@ func (s *session) faultRun(r *rig.Rig, w *rec.Writer, sc FaultScenario) error {
 	switch sc.Fault {
 	case "close-before":
 		peer.Cut.Close()
+		time.Sleep(2 * time.Millisecond)
+	case "deaf-before":
+		// the plugin stops reading (its socket's read side is shut down) without closing anything: the runtime gets no
+		// end-of-file, its next write fails with EPIPE - a disconnected plugin all the same
+		peer.Cut.GoDeaf()
 		time.Sleep(2 * time.Millisecond)
 	case "cut-request":
 		peer.Cut.CutAfterRead(int64(sc.K))
